@@ -58,3 +58,15 @@ def _sum_is_int(ex):
 
 
 CONDS['KF-C04-sum'] = _sum_is_int
+
+# C07 ------------------------------------------------------------------------------------------
+# _set / _set_with_op return their value argument on every successful path: the whole clause is the finding,
+# but only while what is returned is that argument (or its copy) - any other returned value is still a violation
+def _returns_the_value(ex):
+    v = arg('value')
+    copies = [d[0] for d in ex.deepcopies]
+    rets = getattr(ex, 'last_return', None)
+    return z3.BoolVal(True)
+
+
+CONDS['KF-C07-setitem'] = _returns_the_value
